@@ -18,7 +18,7 @@ def gen_facade(rng, n, tier):
     hs = []
     for k in range(n):
         r = _r.Random(rng.getrandbits(64))
-        g = gen_exec.ExecGen(r, focus="single", audit=False, price=1)
+        g = gen_exec.ExecGen(r, focus="single", audit=False, price=1, hub=False)
         long = k % 2 == 0
         for _ in range(r.randint(7, 11) if long else r.randint(2, 5)):
             g.block()
